@@ -5,6 +5,7 @@ import (
 
 	"github.com/reeflective/readline/inputrc"
 	"github.com/reeflective/readline/internal/history"
+	"github.com/reeflective/readline/internal/keymap"
 	"github.com/reeflective/readline/internal/strutil"
 )
 
@@ -684,6 +685,12 @@ func (rl *Shell) acceptLineWith(infer, hold bool) {
 }
 
 func (rl *Shell) insertAutosuggestPartial(emacs bool) {
+	// A movement given to an operator (yw, dw), or one that extends the visual
+	// selection, only designates text: it does not accept a part of the suggestion.
+	if rl.Keymap.Local() == keymap.ViOpp || rl.Keymap.Local() == keymap.Visual {
+		return
+	}
+
 	cpos := rl.cursor.Pos()
 	if cpos < rl.line.Len()-1 {
 		return
